@@ -14,6 +14,43 @@ UNITS.update({
     'DataView_ioWrite': dict(DVC, file=DV, locator=r'void\s+DataView::ioWrite\s*\('),
     'DataView_dataExtent': dict(DVC, file=DV, locator=r'NDSize\s+DataView::dataExtent\s*\((?=\s*\))'),
 })
+from cxx2c import Tok, P, seq_at, fire, match_close, tokenize, split_args
+def single_element_lookup(ctx, toks):
+    """vector<optional<pair>> V = positionToIndex({A}, {B}, {C}, match, D);  with single-element brace lists and only V[0] used
+       ==  the scalar lookup:  opt_pair V0 = positionToIndex_pair1v(A, B, C, match, D);  V[0] -> V0.
+       std::vector<std::string> elements are read here: vec_string (length only) -> vec_nstr"""
+    for t in toks:
+        if t.k == 'id' and t.t == 'vec_string': t.t = 'vec_nstr'
+    out = []; i = 0; names = set()
+    while i < len(toks):
+        if toks[i].t == 'vec_opt_pair' and toks[i + 1].k == 'id' and toks[i + 2].t == '=' and toks[i + 3].t == 'positionToIndex' and toks[i + 4].t == '(':
+            e = match_close(toks, i + 4)
+            args = split_args(toks[i + 5:e])
+            if len(args) != 5 or not all(a and a[0].t == '{' and a[-1].t == '}' and not any(x.t == ',' for x in a) for a in args[:3]):
+                raise Exception('positionToIndex call is not the single-element form')
+            nm = toks[i + 1].t; names.add(nm)
+            out.extend(tokenize('%sopt_pair %s0 = positionToIndex_pair1v(' % (toks[i].ws, nm)))
+            for k, a in enumerate(args):
+                if k: out.append(P(',', ''))
+                out.extend(a[1:-1] if k < 3 else a)
+            out.append(P(')', ''))
+            ctx.env[nm + '0'] = ('opt_pair', False)
+            i = e + 1; fire(ctx, 'single-element-vector-call'); continue
+        out.append(toks[i]); i += 1
+    toks = out; out = []; i = 0
+    while i < len(toks):
+        if toks[i].t in names and seq_at(toks, i + 1, ['[', '0', ']']):
+            out.append(Tok('id', toks[i].t + '0', toks[i].ws)); i += 4; fire(ctx, 'region-live-in'); continue
+        if toks[i].t in names:
+            raise Exception('lookup result %s used other than as [0]' % toks[i].t)
+        out.append(toks[i]); i += 1
+    return out
+UNITS['slice_assemble_dim'] = dict(file='src/util/dataAccess.cpp', locator=r'DataView\s+dataSlice\s*\(', classes=['NDSize', 'DataArray', 'nstring', 'Dimension'],
+    pre_rules=[single_element_lookup], calls={'positionToIndex': 'positionToIndex_scalarv'}, subst={'vec_string': 'vec_nstr'},
+    region=dict(start=r'Dimension\s+dim\s*=\s*array\.getDimension\(i\s*\+\s*1\)\s*;', end=r'count\[i\]\s*\+=[^;]*;\s*\}',
+                params=[('const DataArray &', 'array'), ('const std::vector<double> &', 'start'), ('const std::vector<double> &', 'end'), ('const std::vector<double> &', 'my_start'),
+                        ('const std::vector<double> &', 'my_end'), ('const std::vector<std::string> &', 'my_units'), ('RangeMatch', 'match'), ('NDSize &', 'count'), ('NDSize &', 'offset'), ('size_t', 'i')]))
+SLICE_EXTRA = ('opt_ndsize gh_ge; opt_pair gh_pair; double gh_pair_start, gh_pair_end; RangeMatch gh_pair_match; int gh_pair_calls; ndsize_t gh_pair_dim, gh_ge_dim; int gh_pair_unit, gh_ge_unit;\n')
 # NDSize helpers are linked as bodies (see nd_units.job): value-returning contracts make every later access a case split
 ND_BODIES = ['NDSize_size', 'NDSize_bool', 'NDSize_at']
 def io_cases(j):
@@ -39,9 +76,12 @@ JOBS += [
          cbmc_flags=UNW, expect_kinds=['postcondition'], timeout=900),
 ] + rank_cases(dict(name='positionInData', bodies=ND_BODIES + ['positionInData'], enforce=['positionInData'], replace=ND_REPL, cbmc_flags=UNW,
                     expect_kinds=['postcondition'], timeout=600)) + \
-    []   # positionAndExtentInData: contract written (dv.h) but the job does not terminate within 20 min even for rank 2; not claimed
+    [dict(name='slice_assemble_dim', bodies=['NDSize_size', 'NDSize_at', 'slice_assemble_dim'], enforce=['slice_assemble_dim'], replace=['positionToIndex_scalarv'], extra_c=SLICE_EXTRA,
+          includes=['nd.h', 'dataarray.h', 'dv.h', 'c17_slice.h'], defines=['ND_FULL_ALLOC'], cbmc_flags=UNW, expect_kinds=['postcondition', 'precondition'], timeout=900)] + \
+    []   # positionAndExtentInData: contract written (dv.h); with NDSize_isub_scalar replaced by its contract the job terminates but the element-wise clause is lost
+         # (that contract speaks about ghost_k only), with its body linked the job does not terminate within 30 min even for rank 1: not claimed
 SPEC = dict(
-    contracts=['nd.h', 'dv.h'], stubs=['dataarray.h'], include_order=['nd.h', 'dataarray.h', 'dv.h'], units=UNITS, jobs=JOBS,
+    contracts=['nd.h', 'dv.h', 'c17_slice.h'], stubs=['dataarray.h'], include_order=['nd.h', 'dataarray.h', 'dv.h'], units=UNITS, jobs=JOBS,
     trusted_base=['CBMC 6.11.0 (C front end, --dfcc contract instrumentation, SAT back end)',
                   'vlib/cxx2c.py idiom map'] + ND_TRUST,
     assumptions=['NDSize rank <= 32', 'ndsize_t arithmetic is 64-bit modular (bit-precise)'],
